@@ -76,6 +76,13 @@ fn type_cases<T: Zoo>(ctx: &mut Ctx, enum_none_ok_only: bool) {
         roundtrips::<T>(ctx, &fields, &values, idx, &o);
         // the empty batch
         roundtrips::<T>(ctx, &fields, &[], idx, &o);
+        // the same values in reverse and in a shuffled order (state kept by the builders across records -
+        // field lookup caches, union counters - must not depend on which record came first)
+        let mut rev = values.clone(); rev.reverse();
+        roundtrips::<T>(ctx, &fields, &rev, idx, &o);
+        let mut order: Vec<usize> = (0..values.len()).collect(); rng.shuffle(&mut order);
+        let shuffled: Vec<T> = order.iter().map(|&i| values[i].clone()).collect();
+        roundtrips::<T>(ctx, &fields, &shuffled, idx, &o);
     }
 }
 
